@@ -68,6 +68,8 @@ class Interp:
 
     def opval(self, env, o):
         if o['k'] == 'const':
+            if o.get('v') is None and o.get('s') in getattr(self, 'const_params', {}):
+                return self.const_params[o['s']]          # a const generic parameter bound by the caller (`fn f<const N: usize>`)
             return o.get('v')
         return self.place_val(env, o['p'])
 
